@@ -787,7 +787,7 @@ def check_C30(res):
     trace_stage(res, ["io", res.seed, 25 if q else 1500], "TraceIo", "io", ["C30"], session_start=None)
     res.assumptions += ["requests are sent well within the 5 s read timeout of the providers",
                         "the per-request oracle is the in-process handle_message result on the same server (validated against Server.tla by C01-C10)",
-                        "if the kernel resets a connection the server closed with unread requests, only a prefix of the expected octets is required (never observed on loopback)"]
+                        "if the kernel resets a connection that the server closed while the client was still sending (a client read or write fails), only a prefix of the expected octets is required; pipelined batches are never affected"]
     return "(M) the TCP read loop (buffer, n_read, cached length, leftover, close after a response-less message) against the abstract length-prefixed stream for every segmentation into reads, with liveness; (V) both providers in-process on loopback: blocking with (0 base workers, no linger, 1 UDP worker), (2, 50 ms, 2), (1, 0, 3) and Tokio; per configuration n connections carrying 1-7 requests (valid, FORMERR, NOTIMP, EDNS, response-less: QR set / shorter than a header / empty / two questions), written in one piece (pipelined) or in segments of 1-4000 octets with 0-11 ms pauses; n UDP exchanges from fresh sockets; everything returned, a 40 ms window for surplus octets/datagrams, close detection"
 
 
